@@ -792,7 +792,7 @@ class C08(Prop):
                 roles = axis_roles(g["t"], g["ids"], sites, canon)
                 if [tuple(x) for x in m["axes"]] not in [[tuple(y) for y in r] for r in roles]:
                     return f"gate {j}: axis roles impl {roles} model {m['axes']}"
-                self._stats["axis_roles_unique" if len(roles) == 1 else "axis_roles_ambiguous"] += 1
+                self._stats[f"roles:{m['kind']}{len(sites)}:" + ("unique" if len(roles) == 1 else "ambiguous")] += 1
         return None
 
     def _compare_split(self, case, ob, mo, idm):
@@ -856,6 +856,11 @@ class C08(Prop):
                 break
             if len(mst) != len(g["stages"]):
                 return f"gate {j}: {len(g['stages'])} sub-operations observed, model has {len(mst)}"
+            self._stats[f"gate:{len(mst)}-stage"] += 1
+            gi = ob["exponents"][j % len(ob["exponents"])]["ids"]
+            if len(gi) == 2:
+                par = {n[0]: n[1] for n in ob["snap0"]["nodes"]}
+                self._stats["pair:parent-first" if par.get(gi[1]) == gi[0] else "pair:child-first"] += 1
             for stg, mo_ in zip(g["stages"], mst):
                 mpy = wmodel.model_obs_to_py(mo_, idm)
                 d = wmodel.compare_snapshot(stg["snap"], mpy)
